@@ -498,6 +498,525 @@ fn wide_unit(tier: Tier, idx: usize, ctx: &mut Ctx) {
 
 const HISTORY_SHARDS: usize = 8;
 
+// ================================================================== path constructors, Index
+// accessors, malformed index rows and injected I/O errors (appended units; everything above is
+// unchanged)
+
+use std::cell::Cell;
+use std::io::{self, Read, Seek, SeekFrom};
+use std::path::{Path, PathBuf};
+
+/// scratch directory of one unit; removed when dropped
+struct TempDir(PathBuf);
+
+impl TempDir {
+    fn new(tag: &str) -> TempDir {
+        let p = std::env::temp_dir().join(format!("bmc-{}-{}", std::process::id(), tag));
+        let _ = std::fs::remove_dir_all(&p);
+        if let Err(e) = std::fs::create_dir_all(&p) {
+            // no verdict is possible without a scratch directory
+            panic!("cannot create scratch directory {:?}: {}", p, e);
+        }
+        TempDir(p)
+    }
+    fn path(&self) -> &Path {
+        &self.0
+    }
+}
+
+impl Drop for TempDir {
+    fn drop(&mut self) {
+        let _ = std::fs::remove_dir_all(&self.0);
+    }
+}
+
+/// files with 0, 1 and 5 records whose names are not in sorted order (for `sequences()`)
+fn extra_files() -> Vec<FileCfg> {
+    vec![
+        FileCfg { width: 2, crlf: false, lens: vec![], header_suffix: String::new(), names: vec![] },
+        FileCfg { width: 3, crlf: true, lens: vec![4], header_suffix: " d".into(), names: vec!["only".into()] },
+        FileCfg { width: 2, crlf: false, lens: vec![3, 1, 2, 5, 4], header_suffix: String::new(), names: vec!["zz".into(), "b".into(), "a".into(), "m".into(), "B".into()] },
+        FileCfg { width: 4, crlf: true, lens: vec![9, 2, 7], header_suffix: " x y".into(), names: vec!["s3".into(), "s1".into(), "s2".into()] },
+    ]
+}
+
+fn api_files(tier: Tier) -> Vec<FileCfg> {
+    let mut v = small_files(tier);
+    v.extend(wide_files());
+    v.extend(extra_files());
+    v
+}
+
+/// a few intervals per record through all four API pairings
+fn probe_queries(cfg: &FileCfg) -> Vec<Query> {
+    let mut v = vec![];
+    for (rec, &len) in cfg.lens.iter().enumerate() {
+        let len = len as u64;
+        for (i, (s, e)) in [(0, len), (len / 2, len), (0, 0), (1.min(len), len), (0, (len / 2 + 1).min(len))].into_iter().enumerate() {
+            let how = [How::NameRead, How::RidIter, How::NameIter, How::RidRead][(i + rec) % 4];
+            v.push(Query { rec, start: s, stop: e, how });
+        }
+    }
+    v
+}
+
+/// run the probe queries; Err(description) for the first one that does not return its slice
+fn probe<R: Read + Seek>(rd: &mut IndexedReader<R>, cfg: &FileCfg, seqs: &[Vec<u8>]) -> Result<usize, String> {
+    let mut n = 0;
+    for q in probe_queries(cfg) {
+        let want = &seqs[q.rec][q.start as usize..q.stop as usize];
+        match run_query(rd, &q, cfg) {
+            Ok(got) if got == want => n += got.len(),
+            other => return Err(format!("{:?}: {:?}, expected {:?}", q, other.map(|v| String::from_utf8_lossy(&v).to_string()).map_err(|e| e.to_string()), String::from_utf8_lossy(want))),
+        }
+    }
+    Ok(n)
+}
+
+/// Index::new / IndexedReader::new / with_index agree, and sequences() lists (name, len) of every
+/// row in file order
+fn index_api_check(cfg: &FileCfg, cc: &mut CaseCtx) {
+    let (file, fai, seqs) = build(cfg);
+    cc.set_nontrivial(cfg.lens.len() != 1);
+    let want: Vec<(String, u64)> = cfg.lens.iter().enumerate().map(|(r, &l)| (cfg.name(r), l as u64)).collect();
+    let r = guard(|| {
+        let mut viol: Vec<(String, String)> = vec![];
+        let index = match Index::new(fai.as_bytes()) {
+            Ok(i) => i,
+            Err(e) => {
+                viol.push(("C12/index/new/error-on-valid-index".to_string(), e.to_string()));
+                return viol;
+            }
+        };
+        // the same text parsed several times: an order that depends on a per-instance hash seed
+        // shows up reproducibly
+        let mut got: Vec<(String, u64)> = index.sequences().into_iter().map(|s| (s.name, s.len)).collect();
+        for _ in 0..16 {
+            if got != want {
+                break;
+            }
+            got = match Index::new(fai.as_bytes()) {
+                Ok(i) => i.sequences().into_iter().map(|s| (s.name, s.len)).collect(),
+                Err(_) => break,
+            };
+        }
+        if got != want {
+            let sym = if got.len() != want.len() {
+                "row-count-differs"
+            } else {
+                let (mut a, mut b) = (got.clone(), want.clone());
+                a.sort();
+                b.sort();
+                if a == b { "not-in-file-order" } else { "name-or-len-differs" }
+            };
+            viol.push((format!("C12/index/sequences/{}", sym), format!("{:?}, index rows {:?}", got, want)));
+        }
+        match IndexedReader::new(Env::new(&file, Schedule::Uniform(usize::MAX)), fai.as_bytes()) {
+            Err(e) => viol.push(("C12/indexed-reader/new/error-on-valid-index".to_string(), e.to_string())),
+            Ok(mut rd) => {
+                if rd.index != index {
+                    viol.push(("C12/indexed-reader/new/index-differs-from-index-new".to_string(), format!("{:?} vs {:?}", rd.index, index)));
+                }
+                if let Err(d) = probe(&mut rd, cfg, &seqs) {
+                    viol.push(("C12/indexed-reader/new/wrong-data".to_string(), d));
+                }
+            }
+        }
+        let mut rd = IndexedReader::with_index(Env::new(&file, Schedule::Uniform(usize::MAX)), index.clone());
+        if rd.index != index {
+            viol.push(("C12/indexed-reader/with_index/index-differs".to_string(), String::new()));
+        }
+        if let Err(d) = probe(&mut rd, cfg, &seqs) {
+            viol.push(("C12/indexed-reader/with_index/wrong-data".to_string(), d));
+        }
+        viol
+    });
+    match r {
+        Err(msg) => cc.violation("C12/index/api/panic", msg),
+        Ok(viol) => {
+            cc.outcome(&want);
+            for (k, d) in viol {
+                cc.violation(k, d);
+            }
+        }
+    }
+}
+
+/// Index::from_file, Index::with_fasta_file (= "<fasta path>.fai") and IndexedReader::from_file
+/// against the in-memory constructors
+fn index_file_check(dir: &Path, cfg: &FileCfg, fasta_name: &str, cc: &mut CaseCtx) {
+    let (file, fai, seqs) = build(cfg);
+    cc.nontrivial();
+    let fa = dir.join(fasta_name);
+    let fai_path = dir.join(format!("{}.fai", fasta_name));
+    let r = guard(|| {
+        let mut viol: Vec<(String, String)> = vec![];
+        std::fs::write(&fa, &file).expect("scratch file is writable");
+        std::fs::write(&fai_path, fai.as_bytes()).expect("scratch file is writable");
+        let index = Index::new(fai.as_bytes()).expect("index parses");
+        match Index::from_file(&fai_path) {
+            Err(e) => viol.push(("C12/index/from_file/error-on-existing-file".to_string(), format!("{:#}", e))),
+            Ok(i) => {
+                if i != index {
+                    viol.push(("C12/index/from_file/differs-from-index-new".to_string(), format!("{:?} vs {:?}", i, index)));
+                }
+            }
+        }
+        match Index::with_fasta_file(&fa) {
+            Err(e) => viol.push(("C12/index/with_fasta_file/error-although-fai-exists".to_string(), format!("{:?}: {:#}", fai_path, e))),
+            Ok(i) => {
+                if i != index {
+                    viol.push(("C12/index/with_fasta_file/differs-from-index-new".to_string(), format!("{:?} vs {:?}", i, index)));
+                }
+            }
+        }
+        match IndexedReader::from_file(&fa) {
+            Err(e) => viol.push(("C12/indexed-reader/from_file/error-on-existing-files".to_string(), format!("{:#}", e))),
+            Ok(mut rd) => {
+                if rd.index != index {
+                    viol.push(("C12/indexed-reader/from_file/index-differs-from-index-new".to_string(), format!("{:?} vs {:?}", rd.index, index)));
+                }
+                if let Err(d) = probe(&mut rd, cfg, &seqs) {
+                    viol.push(("C12/indexed-reader/from_file/wrong-data".to_string(), d));
+                }
+            }
+        }
+        let _ = std::fs::remove_file(&fa);
+        let _ = std::fs::remove_file(&fai_path);
+        viol
+    });
+    match r {
+        Err(msg) => cc.violation("C12/index/file-constructors/panic", msg),
+        Ok(viol) => {
+            cc.outcome(&(cfg.lens.len(), fasta_name.len()));
+            for (k, d) in viol {
+                cc.violation(k, d);
+            }
+        }
+    }
+}
+
+/// missing files give Err from every path constructor
+fn index_missing_check(dir: &Path, cc: &mut CaseCtx) {
+    cc.nontrivial();
+    let cfg = FileCfg { width: 3, crlf: false, lens: vec![5, 2], header_suffix: String::new(), names: vec![] };
+    let (file, fai, _) = build(&cfg);
+    let r = guard(|| {
+        let mut oks: Vec<(&'static str, bool)> = vec![];
+        let nothing = dir.join("nothing.fa");
+        let _ = std::fs::remove_file(&nothing);
+        let nothing_fai = dir.join("nothing.fa.fai");
+        let _ = std::fs::remove_file(&nothing_fai);
+        oks.push(("index/from_file/ok-on-missing-path", Index::from_file(&nothing_fai).is_ok()));
+        oks.push(("index/with_fasta_file/ok-on-missing-fai", Index::with_fasta_file(&nothing).is_ok()));
+        oks.push(("indexed-reader/from_file/ok-on-missing-files", IndexedReader::from_file(&nothing).is_ok()));
+        // fasta present, index missing
+        let only_fa = dir.join("only.fa");
+        std::fs::write(&only_fa, &file).expect("scratch file is writable");
+        let _ = std::fs::remove_file(dir.join("only.fa.fai"));
+        oks.push(("index/with_fasta_file/ok-on-missing-fai", Index::with_fasta_file(&only_fa).is_ok()));
+        oks.push(("indexed-reader/from_file/ok-on-missing-fai", IndexedReader::from_file(&only_fa).is_ok()));
+        // index present, fasta missing
+        let only_fai = dir.join("gone.fa.fai");
+        std::fs::write(&only_fai, fai.as_bytes()).expect("scratch file is writable");
+        let gone = dir.join("gone.fa");
+        let _ = std::fs::remove_file(&gone);
+        oks.push(("indexed-reader/from_file/ok-on-missing-fasta", IndexedReader::from_file(&gone).is_ok()));
+        let _ = std::fs::remove_file(&only_fa);
+        let _ = std::fs::remove_file(&only_fai);
+        oks
+    });
+    match r {
+        Err(msg) => cc.violation("C12/index/file-constructors/panic", msg),
+        Ok(oks) => {
+            cc.outcome(&oks);
+            for (name, ok) in oks {
+                if ok {
+                    cc.violation(format!("C12/{}", name), "Ok although the file does not exist".to_string());
+                }
+            }
+        }
+    }
+}
+
+/// .fai texts with one malformed row (too few columns / a length, offset or width that is not an
+/// unsigned integer), alone, after and before a well-formed row
+fn bad_indexes() -> Vec<(String, String)> {
+    let good = ["s1", "5", "4", "5", "6"];
+    let mut rows: Vec<(String, String)> = vec![];
+    for n in 1..5 {
+        rows.push((format!("{}-columns", n), good[..n].join("\t")));
+    }
+    for col in 1..5 {
+        for (what, bad) in [("letters", "x"), ("empty", ""), ("negative", "-1"), ("decimal", "1.5"), ("beyond-u64", "18446744073709551616"), ("digits-then-letter", "5x")] {
+            let mut r: Vec<&str> = good.to_vec();
+            r[col] = bad;
+            rows.push((format!("column-{}-{}", col + 1, what), r.join("\t")));
+        }
+    }
+    let other = "s0\t2\t4\t2\t3";
+    let mut v = vec![];
+    for (name, row) in rows {
+        v.push((format!("{}/alone", name), format!("{}\n", row)));
+        v.push((format!("{}/after-good-row", name), format!("{}\n{}\n", other, row)));
+        v.push((format!("{}/before-good-row", name), format!("{}\n{}\n", row, other)));
+    }
+    v
+}
+
+fn bad_index_check(dir: &Path, fai: &str, cc: &mut CaseCtx) {
+    cc.nontrivial();
+    let file = b">s1\nABCDE\n>s0\nAB\n";
+    let r = guard(|| {
+        let mut oks: Vec<(&'static str, bool)> = vec![];
+        oks.push(("index/new", Index::new(fai.as_bytes()).is_ok()));
+        oks.push(("indexed-reader/new", IndexedReader::new(io::Cursor::new(&file[..]), fai.as_bytes()).is_ok()));
+        let fa = dir.join("bad.fa");
+        let fai_path = dir.join("bad.fa.fai");
+        std::fs::write(&fa, &file[..]).expect("scratch file is writable");
+        std::fs::write(&fai_path, fai.as_bytes()).expect("scratch file is writable");
+        oks.push(("index/from_file", Index::from_file(&fai_path).is_ok()));
+        oks.push(("index/with_fasta_file", Index::with_fasta_file(&fa).is_ok()));
+        oks.push(("indexed-reader/from_file", IndexedReader::from_file(&fa).is_ok()));
+        let _ = std::fs::remove_file(&fa);
+        let _ = std::fs::remove_file(&fai_path);
+        oks
+    });
+    match r {
+        Err(msg) => cc.violation("C12/index/malformed-row/panic", msg),
+        Ok(oks) => {
+            cc.outcome(&oks);
+            for (name, ok) in oks {
+                if ok {
+                    cc.violation(format!("C12/{}/malformed-row-accepted", name), format!("Ok for index text {:?}", fai));
+                }
+            }
+        }
+    }
+}
+
+// ------------------------------------------------------------------ injected I/O errors
+
+#[derive(Clone, Copy, Debug, PartialEq, Eq, Serialize, Deserialize)]
+enum Fault {
+    /// the k-th read() call of the stream fails with ErrorKind::Other
+    Read(usize),
+    /// the j-th seek() call fails with ErrorKind::Other
+    Seek(usize),
+}
+
+#[derive(Default)]
+struct FaultState {
+    reads: Cell<usize>,
+    seeks: Cell<usize>,
+    triggered: Cell<bool>,
+    disarmed: Cell<bool>,
+}
+
+/// `Read + Seek` over an `Env` with one injected failure (every later call of the same kind fails
+/// too when `sticky`) until it is disarmed; a failing call changes nothing
+struct FaultyEnv<'a> {
+    env: Env<'a>,
+    fault: Option<Fault>,
+    sticky: bool,
+    st: &'a FaultState,
+    max_calls: usize,
+}
+
+impl<'a> FaultyEnv<'a> {
+    fn hit(&self, at: usize, now: usize) -> bool {
+        !self.st.disarmed.get() && (now == at || (self.sticky && now > at))
+    }
+}
+
+impl<'a> Read for FaultyEnv<'a> {
+    fn read(&mut self, buf: &mut [u8]) -> io::Result<usize> {
+        let c = self.st.reads.get();
+        self.st.reads.set(c + 1);
+        if c >= self.max_calls {
+            panic!("environment: reader issued more than {} read calls (no termination)", self.max_calls);
+        }
+        if let Some(Fault::Read(k)) = self.fault {
+            if self.hit(k, c) {
+                self.st.triggered.set(true);
+                return Err(io::Error::new(io::ErrorKind::Other, "read fault (injected)"));
+            }
+        }
+        self.env.read(buf)
+    }
+}
+
+impl<'a> Seek for FaultyEnv<'a> {
+    fn seek(&mut self, s: SeekFrom) -> io::Result<u64> {
+        let c = self.st.seeks.get();
+        self.st.seeks.set(c + 1);
+        if c >= self.max_calls {
+            panic!("environment: reader issued more than {} seek calls (no termination)", self.max_calls);
+        }
+        if let Some(Fault::Seek(j)) = self.fault {
+            if self.hit(j, c) {
+                self.st.triggered.set(true);
+                return Err(io::Error::new(io::ErrorKind::Other, "seek fault (injected)"));
+            }
+        }
+        self.env.seek(s)
+    }
+}
+
+/// (read() calls, seek() calls) of the fault-free query: enumeration bounds for the fault index
+fn query_calls(cfg: &FileCfg, sched: &Schedule, q: &Query) -> (usize, usize) {
+    guard(|| {
+        let (file, fai, _) = build(cfg);
+        let st = FaultState::default();
+        let index = Index::new(fai.as_bytes()).expect("index parses");
+        let mut rd = IndexedReader::with_index(FaultyEnv { env: Env::new(&file, sched.clone()).with_max_calls(usize::MAX), fault: None, sticky: false, st: &st, max_calls: 400 + 40 * file.len() }, index);
+        let _ = run_query(&mut rd, q, cfg);
+        (st.reads.get(), st.seeks.get())
+    })
+    .unwrap_or((0, 0))
+}
+
+/// one query with an injected failure, then (failure disarmed) the same query again on the same
+/// reader.  Ok data must be the exact slice - an I/O error may only surface as Err - and the
+/// second query is an ordinary one on an intact file
+fn fault_check(cfg: &FileCfg, sched: &Schedule, q: &Query, fault: Fault, sticky: bool, cc: &mut CaseCtx) {
+    let (file, fai, seqs) = build(cfg);
+    let want = seqs[q.rec][q.start as usize..q.stop as usize].to_vec();
+    let class = match fault {
+        Fault::Read(_) => "read-error",
+        Fault::Seek(_) => "seek-error",
+    };
+    let r = guard(|| {
+        let st = FaultState::default();
+        let index = Index::new(fai.as_bytes()).expect("index parses");
+        let mut rd = IndexedReader::with_index(FaultyEnv { env: Env::new(&file, sched.clone()).with_max_calls(usize::MAX), fault: Some(fault), sticky, st: &st, max_calls: 800 + 80 * file.len() }, index);
+        let first = run_query(&mut rd, q, cfg).map_err(|e| e.to_string());
+        let triggered = st.triggered.get();
+        st.disarmed.set(true);
+        let second = run_query(&mut rd, q, cfg).map_err(|e| e.to_string());
+        (first, triggered, second)
+    });
+    match r {
+        Err(msg) => {
+            let sym = if msg.contains("no termination") { "no-termination" } else { "panic" };
+            cc.violation(format!("C12/fault/{}/{}", class, sym), msg)
+        }
+        Ok((first, triggered, second)) => {
+            cc.set_nontrivial(triggered);
+            cc.outcome(&(first.is_ok(), triggered, second.is_ok()));
+            if let Ok(got) = &first {
+                if *got != want {
+                    let sym = if got.len() < want.len() { "short-data-instead-of-error" } else { "wrong-data-instead-of-error" };
+                    cc.violation(
+                        format!("C12/fault/{}/{}", class, sym),
+                        format!("{:?} (sticky: {}): Ok({:?}), expected {:?} or Err", fault, sticky, String::from_utf8_lossy(got), String::from_utf8_lossy(&want)),
+                    );
+                }
+            } else if !triggered {
+                cc.violation(format!("C12/fault/{}/error-without-fault", class), format!("{:?}", first));
+            }
+            match &second {
+                Ok(got) if *got == want => {}
+                Ok(got) => cc.violation(
+                    format!("C12/fault/{}/next-query-wrong-data", class),
+                    format!("after {:?} (first answer {:?}) the same query on the intact stream returned {:?}, expected {:?}", fault, first.as_ref().map(|v| String::from_utf8_lossy(v).to_string()), String::from_utf8_lossy(got), String::from_utf8_lossy(&want)),
+                ),
+                Err(e) => cc.violation(format!("C12/fault/{}/next-query-fails", class), format!("after {:?} the same query on the intact stream failed: {}", fault, e)),
+            }
+        }
+    }
+}
+
+// ------------------------------------------------------------------ enumeration of the appended units
+
+const FAULT_SHARDS: usize = 8;
+const FASTA_NAMES: [&str; 3] = ["ref.fasta", "ref", "a.b.fa"];
+
+fn api_unit(tier: Tier, ctx: &mut Ctx) {
+    let dir = TempDir::new("C12-api");
+    for (fi, cfg) in api_files(tier).iter().enumerate() {
+        ctx.case(|| json!({"kind": "index-api", "file": cfg}), |cc| index_api_check(cfg, cc));
+        let name = FASTA_NAMES[fi % FASTA_NAMES.len()];
+        ctx.case(|| json!({"kind": "index-file", "file": cfg, "fasta_name": name}), |cc| index_file_check(dir.path(), cfg, name, cc));
+    }
+    ctx.case(|| json!({"kind": "index-missing"}), |cc| index_missing_check(dir.path(), cc));
+    for (class, fai) in bad_indexes() {
+        ctx.case(|| json!({"kind": "bad-index", "class": class, "fai": fai}), |cc| bad_index_check(dir.path(), &fai, cc));
+    }
+}
+
+fn fault_unit(tier: Tier, shard: usize, ctx: &mut Ctx) {
+    let hows: &[How] = match tier {
+        Tier::Quick => &[How::NameRead, How::RidIter],
+        Tier::Thorough => &[How::NameRead, How::RidIter, How::NameIter, How::RidRead],
+    };
+    for (fi, cfg) in small_files(tier).iter().enumerate() {
+        if fi % FAULT_SHARDS != shard {
+            continue;
+        }
+        for (rec, &len) in cfg.lens.iter().enumerate() {
+            for start in 0..=len {
+                for stop in start..=len {
+                    if (start + stop + fi) % tier.pick(2, 1) != 0 {
+                        continue;
+                    }
+                    for &how in hows {
+                        let q = Query { rec, start: start as u64, stop: stop as u64, how };
+                        for sched in [Schedule::Uniform(usize::MAX), Schedule::Uniform(2), Schedule::Uniform(1)] {
+                            let (reads, seeks) = query_calls(cfg, &sched, &q);
+                            let faults: Vec<Fault> = (0..seeks).map(Fault::Seek).chain((0..reads).map(Fault::Read)).collect();
+                            for fault in faults {
+                                for sticky in [false, true] {
+                                    ctx.case(|| json!({"kind": "fault", "file": cfg, "sched": sched, "query": q, "fault": fault, "sticky": sticky}), |cc| fault_check(cfg, &sched, &q, fault, sticky, cc));
+                                }
+                            }
+                        }
+                    }
+                }
+            }
+        }
+        if ctx.res.capped {
+            return;
+        }
+    }
+}
+
+/// replay of the appended case kinds; false if `case` is not one of them
+fn replay_ext(case: &Value, ctx: &mut Ctx) -> bool {
+    let cfg = || -> FileCfg { serde_json::from_value(case["file"].clone()).unwrap() };
+    match case["kind"].as_str().unwrap_or("") {
+        "index-api" => {
+            let cfg = cfg();
+            ctx.case(|| case.clone(), |cc| index_api_check(&cfg, cc));
+        }
+        "index-file" => {
+            let cfg = cfg();
+            let name = case["fasta_name"].as_str().unwrap_or("ref.fasta").to_string();
+            let dir = TempDir::new("C12-replay");
+            ctx.case(|| case.clone(), |cc| index_file_check(dir.path(), &cfg, &name, cc));
+        }
+        "index-missing" => {
+            let dir = TempDir::new("C12-replay");
+            ctx.case(|| case.clone(), |cc| index_missing_check(dir.path(), cc));
+        }
+        "bad-index" => {
+            let fai = case["fai"].as_str().unwrap_or("").to_string();
+            let dir = TempDir::new("C12-replay");
+            ctx.case(|| case.clone(), |cc| bad_index_check(dir.path(), &fai, cc));
+        }
+        "fault" => {
+            let cfg = cfg();
+            let sched: Schedule = serde_json::from_value(case["sched"].clone()).unwrap();
+            let q: Query = serde_json::from_value(case["query"].clone()).unwrap();
+            let fault: Fault = serde_json::from_value(case["fault"].clone()).unwrap();
+            let sticky = case["sticky"].as_bool().unwrap_or(false);
+            ctx.case(|| case.clone(), |cc| fault_check(&cfg, &sched, &q, fault, sticky, cc));
+        }
+        _ => return false,
+    }
+    true
+}
+
 impl Prop for C12Prop {
     fn id(&self) -> &'static str {
         "C12"
@@ -506,13 +1025,16 @@ impl Prop for C12Prop {
         "fault_enumeration"
     }
     fn rule(&self) -> &'static str {
-        "Two-record FASTA files over a grid of line widths, terminators and lengths with a matching .fai; every (record, start, stop) with 0<=start<=stop<=len through fetch-by-name+read and fetch-by-rid+read_iter under every schedule of a family (uniform 1,2,3, cycles, unbounded, every single short answer of 1..3 bytes at one of the first calls; thorough: every pair of such deviations), the two other API pairings on one schedule; error clauses per file; every truncation offset of the file (index intact) for the queries of a stride; fetch/read/read_iter/partially-consumed-iterator/read-again-without-fetch histories of depth 3/4 on one reader; wide-line files (60, 511..513, 600) with boundary marks. Non-trivial: the interval crosses a line boundary, or the file is truncated; histories: all."
+        "Two-record FASTA files over a grid of line widths, terminators and lengths with a matching .fai; every (record, start, stop) with 0<=start<=stop<=len through fetch-by-name+read and fetch-by-rid+read_iter under every schedule of a family (uniform 1,2,3, cycles, unbounded, every single short answer of 1..3 bytes at one of the first calls; thorough: every pair of such deviations), the two other API pairings on one schedule; error clauses per file; every truncation offset of the file (index intact) for the queries of a stride; fetch/read/read_iter/partially-consumed-iterator/read-again-without-fetch histories of depth 3/4 on one reader; wide-line files (60, 511..513, 600) with boundary marks. Non-trivial: the interval crosses a line boundary, or the file is truncated; histories: all. Appended units: (index-api) every file of the grids plus files with 0, 1, 3 and 5 records: Index::new / IndexedReader::new / with_index agree, sequences() lists (name, len) of every row in file order; Index::from_file, Index::with_fasta_file and IndexedReader::from_file through a scratch directory (fasta names ref.fasta, ref, a.b.fa) against the in-memory constructors, with probe queries; missing files; every .fai text with one malformed row (1-4 columns; letters, empty, negative, decimal, beyond u64, trailing letter in each numeric column; alone / after / before a good row) must be refused by all five constructors; (io-fault) for the small files, every (record, start, stop) of a stride, fetch-by-name+read and fetch-by-rid+read_iter (thorough: all four pairings), answers unbounded/2/1: every index of a failing seek() or read() call (ErrorKind::Other) up to the call count of the fault-free query, failing once or from then on; then the same query again with the fault gone. Non-trivial there: the injected fault was reached."
     }
     fn assumptions(&self) -> Vec<&'static str> {
         vec![
             "line width >= 1 (the statement's quantifier); the .fai is written by the check from the layout it generated",
             "sequence bytes are position-coded so that short, shifted or terminator-contaminated data cannot equal the expected slice",
             "on a truncated file: Ok(exact slice) or Err are accepted, anything else (short/shifted data, panic, non-termination) is a violation",
+            "under an injected I/O error (ErrorKind::Other): Err, or Ok with exactly the requested slice, are accepted; the next query on the same reader, with the stream intact again, must return its slice",
+            "malformed .fai rows are limited to too few columns and numeric columns that are not unsigned 64-bit integers; surplus columns are not judged",
+            "path constructors are exercised in a per-process scratch directory under std::env::temp_dir()",
         ]
     }
     fn bounds(&self, tier: Tier) -> Value {
@@ -522,12 +1044,16 @@ impl Prop for C12Prop {
             "history_depth": tier.pick(3, 4), "history_alphabet": "7 fetch+read queries, 3 partially consumed iterators, read()/read_iter() again without a new fetch",
             "wide": "width 60,511,512,513,600 x LF/CRLF, len 1300/700, marks within +-2 of multiples of w and 512",
             "truncation": tier.pick("every offset, for every second (start,stop)", "every offset, every (start,stop)"),
+            "index_api_files": api_files(tier).len(), "malformed_index_texts": bad_indexes().len(),
+            "io_faults": tier.pick("every failing seek()/read() call index, once / from then on; every second (start,stop); 2 API pairings; answers unbounded,2,1", "every failing seek()/read() call index, once / from then on; every (start,stop); 4 API pairings; answers unbounded,2,1"),
         })
     }
     fn units(&self, _tier: Tier) -> Vec<String> {
         let mut v: Vec<String> = (0..SMALL_SHARDS).map(|i| format!("small-{}", i)).collect();
         v.extend((0..HISTORY_SHARDS).map(|i| format!("history-{}", i)));
         v.extend((0..wide_files().len()).map(|i| format!("wide-{}", i)));
+        v.push("index-api".to_string());
+        v.extend((0..FAULT_SHARDS).map(|i| format!("io-fault-{}", i)));
         v
     }
     fn run_unit(&self, tier: Tier, unit: usize, ctx: &mut Ctx) {
@@ -535,11 +1061,18 @@ impl Prop for C12Prop {
             small_unit(tier, unit, ctx);
         } else if unit < SMALL_SHARDS + HISTORY_SHARDS {
             history_unit(tier, unit - SMALL_SHARDS, HISTORY_SHARDS, ctx);
-        } else {
+        } else if unit < SMALL_SHARDS + HISTORY_SHARDS + wide_files().len() {
             wide_unit(tier, unit - SMALL_SHARDS - HISTORY_SHARDS, ctx);
+        } else if unit == SMALL_SHARDS + HISTORY_SHARDS + wide_files().len() {
+            api_unit(tier, ctx);
+        } else {
+            fault_unit(tier, unit - SMALL_SHARDS - HISTORY_SHARDS - wide_files().len() - 1, ctx);
         }
     }
     fn replay(&self, case: &Value, ctx: &mut Ctx) {
+        if replay_ext(case, ctx) {
+            return;
+        }
         let cfg: FileCfg = serde_json::from_value(case["file"].clone()).unwrap();
         match case["kind"].as_str().unwrap_or("") {
             "errors" => ctx.case(|| case.clone(), |cc| error_clauses(&cfg, cc)),
